@@ -57,6 +57,15 @@ Definition guard_table : list (string * list string) := [
   ("dnsforward.Server.bootResolvers", ["dnsforward.Server.serverLock"]);
   ("dnsforward.Server.dnsNames", ["dnsforward.Server.serverLock"]);
   ("dnsforward.Server.hasIPAddrs", ["dnsforward.Server.serverLock"]);
+  ("dnsforward.Server.dhcpServer", ["dnsforward.Server.serverLock"]);
+  ("dnsforward.Server.etcHosts", ["dnsforward.Server.serverLock"]);
+  ("dnsforward.Server.privateNets", ["dnsforward.Server.serverLock"]);
+  ("dnsforward.Server.sysResolvers", ["dnsforward.Server.serverLock"]);
+  ("dnsforward.Server.clientIDCache", ["dnsforward.Server.serverLock"]);
+  ("dnsforward.Server.dnsFilter", ["dnsforward.Server.serverLock"]);
+  ("dnsforward.Server.anonymizer", ["dnsforward.Server.serverLock"]);
+  ("dnsforward.Server.dns64Pref", ["dnsforward.Server.serverLock"]);
+  ("dnsforward.Server.localDomainSuffix", ["dnsforward.Server.serverLock"]);
   (* internal/filtering/filtering.go: engineLock (engines and rule storages), "confMu protects conf", "filtersMu protects filter lists" *)
   ("filtering.DNSFilter.rulesStorage", ["filtering.DNSFilter.engineLock"]);
   ("filtering.DNSFilter.filteringEngine", ["filtering.DNSFilter.engineLock"]);
@@ -90,7 +99,12 @@ Definition mutating_methods : list string := [
   "set"; "remove"; "clear"; "Store"; "Append"; "deserialize"
 ].
 
-(** Guards of a field; a field outside the table has none, so no access to it
+(** A field that has no write site reachable from any root (set once before the
+    server starts) may be read without its guard; the check decides this from
+    the regenerated table on every run, so the first runtime write of such a
+    field makes all its unlocked reads reportable.
+
+    Guards of a field; a field outside the table has none, so no access to it
     passes the check. *)
 Definition guards (f : field) : list lock :=
   match find (fun p => String.eqb (fst p) f) guard_table with
